@@ -19,7 +19,8 @@ import common
 PROP = "C13"
 HEADER = "From Coq Require Import ZArith List.\nImport ListNotations.\nFrom IBL.C13 Require Import Run."
 TRUSTED = [
-    "Coq 8.16.1 kernel + vm_compute (no native_compute); all C13 theorems: Closed under the global context",
+    "Coq 8.16.1 kernel + vm_compute (no native_compute); the 15 theorems of Props.v: Closed under the global context; "
+    "PropsFloat.v (1 theorem): ClassicalDedekindReals.sig_forall_dec, sig_not_dec, functional_extensionality_dep, Classical_Prop.classic",
     "hand-written model coq/C13/Model.v of make_channel_index, _make_wfs_table, extract_wfs_cbin, write_wfs_chunk, "
     "extract_wfs_array, WaveformsLoader.load_waveforms (preprocess_steps=[], loader data version 2), tied to "
     "/repo/src by this run's correspondence on every output file",
@@ -28,7 +29,8 @@ TRUSTED = [
     "np.unique / np.sort / np.searchsorted(left) on an ascending array / stable np.argsort / pandas sort_values on "
     "two keys (stable, i.e. ties by original position) / groupby-aggregate / np.nanmedian behave as documented",
     "spike trains sorted by time; 0 <= trough_offset <= chunk size; peak channels inside the probe",
-    "scipy pdist on integer coordinates: sqrt(d2) <= r iff d2 <= r^2 for integer d2 and radii that are multiples of 1/2 below 2^20",
+    "scipy pdist returns the correctly rounded binary64 sqrt of the exact integer sum of squares (that the comparison with a "
+    "half-integer radius then equals the model's integer test is theorem C13_radius_test_exact, Flocq, standard-library real axioms)",
     "spikeglx.Reader on a flat float32 file returns the stored values (C01 is the property about the reader); parquet/npz/npy encoding",
     "harness/pC13.py generator, canonicaliser and oracle",
     "extraction (Require Extraction, ExtrOcamlBasic only), harness/driver.ml, ocamlfind ocamlopt; a sample of the "
